@@ -283,6 +283,12 @@ func checkC05(c *CaseC05, fl *Fails) {
 	tag := c05Tag(c)
 	got, err := c05Call(c.Spatial, c.A, c.B)
 	if err != nil {
+		if c.Spell != 0 {
+			// a library that rejects a non-canonical spelling ("+1", "007", "-0") with an error does not break the
+			// property (it quantifies over valid IDs; only the canonical decimal spelling is certainly one)
+			Count("spelled_input_rejected", 1)
+			return
+		}
 		fl.Add("error-"+tag, "%s: unexpected error %v", desc(), err)
 		return
 	}
